@@ -1,6 +1,7 @@
 package main
 
 import (
+	"fmt"
 	"go/ast"
 	"go/token"
 	"go/types"
@@ -293,4 +294,218 @@ func innermostBody(fd *ast.FuncDecl, n ast.Node) bodyUnit {
 		return true
 	})
 	return best
+}
+
+// ---- compound conditions ----
+//
+// go/cfg keeps `a && b || !c` as one condition node.  The helpers below give
+// the two out-edges of such a block their logical content.
+
+// LitAtom is an atomic condition with a polarity.
+type LitAtom struct {
+	E        ast.Expr
+	Positive bool
+}
+
+// impliedAtoms returns atoms that necessarily hold on the given edge of cond
+// (edgeTrue: the condition evaluated to true).  Conjuncts of a true `&&` and
+// negated disjuncts of a false `||` are implied; anything else is not.
+func impliedAtoms(cond ast.Expr, edgeTrue bool) []LitAtom {
+	var out []LitAtom
+	var walk func(e ast.Expr, want bool)
+	walk = func(e ast.Expr, want bool) {
+		e = ast.Unparen(e)
+		switch x := e.(type) {
+		case *ast.UnaryExpr:
+			if x.Op == token.NOT {
+				walk(x.X, !want)
+				return
+			}
+		case *ast.BinaryExpr:
+			if x.Op == token.LAND && want {
+				walk(x.X, true)
+				walk(x.Y, true)
+				return
+			}
+			if x.Op == token.LOR && !want {
+				walk(x.X, false)
+				walk(x.Y, false)
+				return
+			}
+			if x.Op == token.LAND || x.Op == token.LOR {
+				return // a disjunction of facts: no single atom is implied
+			}
+		}
+		out = append(out, LitAtom{e, want})
+	}
+	walk(cond, edgeTrue)
+	return out
+}
+
+// edgesImplying lists CFG edges on which some atom accepted by pred holds.
+func (f *FCFG) edgesImplying(pred func(a LitAtom) bool) []cfgEdge {
+	var out []cfgEdge
+	for _, b := range f.G.Blocks {
+		if !f.Live(b) {
+			continue
+		}
+		cond := f.CondOf(b)
+		if cond == nil {
+			continue
+		}
+		for k := 0; k < 2; k++ {
+			for _, a := range impliedAtoms(cond, k == 0) {
+				if pred(a) {
+					out = append(out, cfgEdge{b, k})
+					break
+				}
+			}
+		}
+	}
+	return out
+}
+
+// edgeEntails decides whether the logical content of edge (b,k) implies goal.
+// cls names the atoms the goal talks about (with polarity); other atoms are
+// free.  All assignments are enumerated (at most 2^12).
+func (f *FCFG) edgeEntails(b *cfg.Block, k int, cls func(e ast.Expr) (string, bool), goal func(v map[string]bool) bool) bool {
+	cond := f.CondOf(b)
+	if cond == nil {
+		return false
+	}
+	type atom struct {
+		name string
+		neg  bool
+	}
+	atoms := map[ast.Expr]atom{}
+	var names []string
+	seenName := map[string]bool{}
+	nfree := 0
+	var collect func(e ast.Expr)
+	collect = func(e ast.Expr) {
+		e = ast.Unparen(e)
+		switch x := e.(type) {
+		case *ast.UnaryExpr:
+			if x.Op == token.NOT {
+				collect(x.X)
+				return
+			}
+		case *ast.BinaryExpr:
+			if x.Op == token.LAND || x.Op == token.LOR {
+				collect(x.X)
+				collect(x.Y)
+				return
+			}
+		}
+		n, neg := cls(e)
+		if n == "" {
+			nfree++
+			n = fmt.Sprintf("$free%d", nfree)
+		}
+		atoms[e] = atom{n, neg}
+		if !seenName[n] {
+			seenName[n] = true
+			names = append(names, n)
+		}
+	}
+	collect(cond)
+	if len(names) > 12 {
+		return false
+	}
+	var eval func(e ast.Expr, v map[string]bool) bool
+	eval = func(e ast.Expr, v map[string]bool) bool {
+		e = ast.Unparen(e)
+		switch x := e.(type) {
+		case *ast.UnaryExpr:
+			if x.Op == token.NOT {
+				return !eval(x.X, v)
+			}
+		case *ast.BinaryExpr:
+			if x.Op == token.LAND {
+				return eval(x.X, v) && eval(x.Y, v)
+			}
+			if x.Op == token.LOR {
+				return eval(x.X, v) || eval(x.Y, v)
+			}
+		}
+		a := atoms[e]
+		return v[a.name] != a.neg
+	}
+	for mask := 0; mask < 1<<len(names); mask++ {
+		v := map[string]bool{}
+		for i, n := range names {
+			v[n] = mask&(1<<i) != 0
+		}
+		holds := eval(cond, v)
+		if (k == 0) != holds {
+			continue // this assignment does not take edge k
+		}
+		if !goal(v) {
+			return false
+		}
+	}
+	return true
+}
+
+// edgesEntailing lists all edges whose content implies goal.
+func (f *FCFG) edgesEntailing(cls func(e ast.Expr) (string, bool), goal func(v map[string]bool) bool) []cfgEdge {
+	var out []cfgEdge
+	for _, b := range f.G.Blocks {
+		if !f.Live(b) || f.CondOf(b) == nil {
+			continue
+		}
+		// only blocks that mention at least one classified atom
+		mentions := false
+		ast.Inspect(f.CondOf(b), func(n ast.Node) bool {
+			if e, ok := n.(ast.Expr); ok {
+				if nm, _ := cls(e); nm != "" {
+					mentions = true
+				}
+			}
+			return !mentions
+		})
+		if !mentions {
+			continue
+		}
+		for k := 0; k < 2; k++ {
+			if f.edgeEntails(b, k, cls, goal) {
+				out = append(out, cfgEdge{b, k})
+			}
+		}
+	}
+	return out
+}
+
+// nilEdges lists edges on which obj is known nil (wantNil) or non-nil.
+func (f *FCFG) nilEdges(obj types.Object, wantNil bool) []cfgEdge {
+	return f.edgesImplying(func(a LitAtom) bool {
+		is, trueNonNil := isNilTest(f.Info, a.E, obj)
+		if !is {
+			return false
+		}
+		nonNil := trueNonNil == a.Positive
+		return nonNil != wantNil
+	})
+}
+
+// edgeReturns: the first node on edge (b,k) is `return <obj>` (returns the
+// object unchanged); with obj == nil any return is accepted.
+func (f *FCFG) edgeReturns(e cfgEdge, obj types.Object) bool {
+	succ := e.B.Succs[e.K]
+	if len(succ.Nodes) == 0 {
+		return false
+	}
+	rs, ok := succ.Nodes[0].(*ast.ReturnStmt)
+	if !ok {
+		return false
+	}
+	if obj == nil {
+		return true
+	}
+	for _, r := range rs.Results {
+		if identObj(f.Info, r) == obj {
+			return true
+		}
+	}
+	return false
 }
